@@ -249,6 +249,15 @@ def exclusivity(atoms):
         for o in atoms:
             if o is not a and (coll + "[*") in o:
                 ax.append(Or(Not(atom(o)), atom(a)))
+    # an atom about P↓V.k.. (something inside the payload of variant V of P) can only hold if P is a V
+    for a in atoms:
+        m = IS_RE.match(a)
+        if not m:
+            continue
+        inside = m.group(1) + "↓" + m.group(2) + "."
+        for o in atoms:
+            if o is not a and inside in o:
+                ax.append(Or(Not(atom(o)), atom(a)))
     return And(*ax) if ax else T
 
 
